@@ -1294,7 +1294,9 @@ class BaseEvolutionOperations(object):
 
         to_remove = old_unique_together.difference(new_unique_together)
 
-        for field_names in to_remove:
+        # Note that sets are iterated in sorted order, so that the generated
+        # SQL does not depend on the hash seed of the process.
+        for field_names in sorted(to_remove):
             fields = self.get_fields_for_names(model, field_names)
             index_state = self.database_state.find_index(
                 table_name=table_name,
@@ -1310,7 +1312,7 @@ class BaseEvolutionOperations(object):
                 sql_result.add_sql(
                     self.get_drop_unique_constraint_sql(model, index_name))
 
-        for field_names in new_unique_together:
+        for field_names in sorted(new_unique_together):
             fields = self.get_fields_for_names(model, field_names)
             index_state = self.database_state.find_index(
                 table_name=table_name,
@@ -1352,7 +1354,9 @@ class BaseEvolutionOperations(object):
 
         to_remove = old_index_together.difference(new_index_together)
 
-        for field_names in to_remove:
+        # Note that sets are iterated in sorted order, so that the generated
+        # SQL does not depend on the hash seed of the process.
+        for field_names in sorted(to_remove):
             fields = self.get_fields_for_names(model, field_names)
             index_state = self.database_state.find_index(
                 table_name=table_name,
@@ -1362,7 +1366,7 @@ class BaseEvolutionOperations(object):
                 sql_result.add(self.drop_index_by_name(model,
                                                        index_state.name))
 
-        for field_names in new_index_together:
+        for field_names in sorted(new_index_together):
             fields = self.get_fields_for_names(model, field_names)
             columns = self.get_column_names_for_fields(fields)
             index_state = self.database_state.find_index(table_name=table_name,
